@@ -142,3 +142,65 @@ func init() {
 		fmt.Println()
 	}
 }
+
+// usedConsts: constants referenced by library code (outside their own declaration).
+func (c *Ctx) usedConsts() map[*types.Const]bool {
+	if v, ok := c.cache["usedConsts"]; ok {
+		return v.(map[*types.Const]bool)
+	}
+	out := map[*types.Const]bool{}
+	for _, p := range c.Roots {
+		for id, o := range p.TypesInfo.Uses {
+			_ = id
+			if k, ok := o.(*types.Const); ok {
+				out[k] = true
+			}
+		}
+	}
+	c.cache["usedConsts"] = out
+	return out
+}
+
+// runNamedConstTable compares the package-level integer constants named in ref
+// (of the given Go type, or untyped / basic when typeName is "") with the reference values.
+func (c *Ctx) runNamedConstTable(r *Report, rule, rel, typeName string, ref map[string]int64) int {
+	p := c.pkg(rel)
+	scope := p.Types.Scope()
+	used := c.usedConsts()
+	n := 0
+	var names []string
+	for nm := range ref {
+		names = append(names, nm)
+	}
+	sort.Strings(names)
+	for _, nm := range names {
+		k, ok := scope.Lookup(nm).(*types.Const)
+		if !ok || k.Val().Kind() != constant.Int {
+			continue
+		}
+		if typeName != "" && namedName(k.Type()) != typeName {
+			continue
+		}
+		v, _ := constant.Int64Val(k.Val())
+		construct := rel + "." + nm
+		if !used[k] {
+			r.triv(rule, construct, c.pos(k.Pos()), "never referenced by library code: its value cannot reach the output (not judged)")
+			continue
+		}
+		n++
+		if v == ref[nm] {
+			r.ok(rule, construct, c.pos(k.Pos()), "")
+		} else {
+			r.viol(rule, construct, c.pos(k.Pos()), fmt.Sprintf("%s.%s = %d but the specification assigns %d", rel, nm, v, ref[nm]))
+		}
+	}
+	return n
+}
+
+func (c *Ctx) runDXILTables(r *Report, rule string) {
+	n := 0
+	for _, t := range dxilTables {
+		n += c.runNamedConstTable(r, rule, t.Pkg, t.Type, t.Ref)
+	}
+	r.inst("tables.dxil", n)
+}
